@@ -1,2 +1,84 @@
+"""C10 'stale' mode: registry runs - bounds on concurrent modified-time queries and store operations; retry on store ops."""
+import collections
+import hashlib
+import random
+import time
+
+from vmon import history, regmodel
+from vmon.rec import InjectedError
+
+
 def run_case(desc):
-    return {"status": "ok", "counters": {}, "nontrivial": False}
+    seed = desc["seed"]
+    rng = random.Random(seed)
+    rp = regmodel.gen_regplan(rng, max(4, desc.get("n", 10)), family=rng.choice(["layers", "crisscross", "join", "random"]),
+                              cfg={"p_store": 0.7, "p_dep": 0.1})
+    S = regmodel.Session(rp, seed)
+    H = S.H
+    W = desc["W"]
+    sW = desc.get("sW")
+    retry_n = rng.choice([None, None, 2, 3])
+    flaky = {}
+    if retry_n:
+        for i in S.reg:
+            for kind in ("mt", "rd", "wr_before"):
+                if rng.random() < 0.25:
+                    flaky[(kind, f"s{i}")] = rng.randint(1, retry_n - 1)
+    seen = collections.Counter()
+
+    def hook(kind, st):
+        with H.lock:
+            seen[(kind, st.name)] += 1
+            c = seen[(kind, st.name)]
+        j = flaky.get((kind, st.name))
+        if j is not None and c <= j:
+            raise InjectedError(f"flaky {kind} {st.name} attempt {c}")
+        if kind in ("mt", "rd", "wr_before"):
+            time.sleep(0.0002)
+
+    H.store_hook = hook
+    H.pre = lambda nid, att: time.sleep(0.0001)
+    out_ids = history.choose_out(rng, S)
+    exp = S.expect(out_ids, None)
+    kw = {}
+    if sW is not None:
+        kw["stale_check_max_workers"] = sW
+    if retry_n:
+        kw["retry"] = retry_n
+    res, exc = S.run(out_ids, W=W, sched=desc["sched"], **kw)
+    bound_mt = sW if sW is not None else W
+    bad = None
+    if H.max_mt_in_flight > bound_mt:
+        bad = f"{H.max_mt_in_flight} modified-time queries ran concurrently; stale_check_max_workers={sW}, max_workers={W}"
+    elif H.max_in_flight > W:
+        bad = f"{H.max_in_flight} calls/store operations ran concurrently with max_workers={W}"
+    elif exc is not None:
+        bad = f"run raised {exc!r} (cause {exc.__cause__!r}) although every flaky store operation succeeds within retry={retry_n}"
+    else:
+        # attempts: each operation attempted at most n times and exactly (failures + 1) times
+        for (kind, name), j in flaky.items():
+            base = {"wr_before": "wr"}.get(kind, kind)
+            got = H.attempts_store.get((base, name), 0)
+            if got not in (0, j + 1):
+                bad = f"flaky store operation {base} {name} fails first {j} attempt(s), retry={retry_n}: attempted {got} times (expected {j + 1})"
+                break
+        if bad is None:
+            d = S.check_counts_retry(exp, flaky) if flaky else S.check_counts(exp)
+            if d:
+                bad = "with retry on store operations: " + d
+        if bad is None:
+            d = S.check_values(res, out_ids)
+            if d:
+                bad = d
+    n_reg = len(S.reg)
+    counters = {"stale_runs": 1, "stale_mt_bound_reached": int(H.max_mt_in_flight == min(bound_mt, n_reg)),
+                "stale_max_mt_in_flight": H.max_mt_in_flight, "stale_flaky_store_ops": len(flaky),
+                "stale_runs_with_retry": int(bool(retry_n))}
+    r = {"status": "ok", "counters": counters, "nontrivial": H.max_mt_in_flight >= 2 or bool(flaky),
+         "sig": hashlib.sha1(("\n".join(S.describe(100)) + f"|{W}|{sW}|{retry_n}|{sorted(flaky)}").encode()).hexdigest()[:16]}
+    if seed % 150 == 0 or bad:
+        r["sample"] = {"desc": desc, "plan": S.describe(10), "max_mt_in_flight": H.max_mt_in_flight, "max_in_flight": H.max_in_flight,
+                       "flaky": {f"{k[0]}:{k[1]}": v for k, v in list(flaky.items())[:8]}}
+    if bad:
+        r.update(status="violation", detail=bad, mechanism="limits-stale", witness={"plan": S.describe(100), "events": H.compact_history(800)})
+    return r
